@@ -238,6 +238,12 @@ def alter(bundle, alteration, sec_type=11):
                     return
             asb['params'].append([3, cb.enc({})])
         out = edit_asb(out, sec_type, func)
+    elif kind == 'res-drop':
+        # the MAC / signature removed: the result list of the last target is taken off the results array
+        out = edit_asb(out, sec_type, lambda asb: asb['results'].pop())
+    elif kind == 'res-none':
+        # the result list of one target left in place but emptied
+        out = edit_asb(out, sec_type, lambda asb: asb['results'].__setitem__(alteration[1] % len(asb['results']), []))
     elif kind in ('res-tag', 'res-protected', 'res-kid', 'res-iv'):
         out = edit_asb(out, sec_type, lambda asb: flip_in_result(asb, alteration[1], kind[4:], alteration[2]))
     else:
